@@ -114,6 +114,8 @@ class TState:
         self.wakeable = False     # a pure delay (time.sleep): its end may be scheduled at any moment
         self.held = []            # names of cooperative locks held, acquisition order
         self.pending_wake = False # appended to _out_packet, wake byte not yet sent
+        self.fresh = True         # has not run yet
+        self.sym = getattr(sthread, "sym", None)   # symmetry class (threads with identical programs)
 
     def enabled(self):
         if self.state == RUNNABLE:
@@ -177,13 +179,25 @@ class DFS(Strategy):
         self.preemptions = 0
         self.diverged = False
 
+    @staticmethod
+    def _sym(ts):
+        """threads that have not started yet and run identical programs are interchangeable: keep one"""
+        seen, out = set(), []
+        for t in ts:
+            if t.fresh and t.sym is not None:
+                if t.sym in seen:
+                    continue
+                seen.add(t.sym)
+            out.append(t)
+        return out
+
     def choose(self, sched, me, enabled):
         if me is not None:
             opts = [me]
             if self.preemptions < self.bound:
-                opts += [t for t in enabled if t is not me]
+                opts += self._sym([t for t in enabled if t is not me])
         else:
-            opts = list(enabled)
+            opts = self._sym(enabled)
         k = len(self.stack)
         idx = self.prefix[k] if k < len(self.prefix) else 0
         if idx >= len(opts):       # non-determinism: should not happen
@@ -322,6 +336,7 @@ class Scheduler:
     def _boot(self, t):
         t.ident = _get_ident()
         t.sem.acquire()
+        t.fresh = False
         try:
             if self.abort:
                 return
